@@ -2,8 +2,14 @@
 
 //! Haystack Def namespace
 
+#[cfg(j2inn_libhaystack_verif)]
+use crate::verif_hooks::{DashMap, HashSet, MapReadRef};
+#[cfg(not(j2inn_libhaystack_verif))]
 use dashmap::{mapref::one::Ref as MapReadRef, DashMap};
 use lazy_static::lazy_static;
+#[cfg(j2inn_libhaystack_verif)]
+use std::collections::BTreeMap;
+#[cfg(not(j2inn_libhaystack_verif))]
 use std::collections::{BTreeMap, HashSet};
 
 use super::misc::parse_multi_line_string_to_dicts;
@@ -915,5 +921,26 @@ impl<'a> Namespace<'a> {
             }
         }
         false
+    }
+}
+
+#[cfg(j2inn_libhaystack_verif)]
+impl Namespace<'_> {
+    /// Verification hook: the content of the two lazy caches as sorted
+    /// `(cache name, key, sorted def names)` triples.
+    pub fn verif_cache_snapshot(&self) -> Vec<(&'static str, String, Vec<String>)> {
+        let mut snapshot = Vec::new();
+        for (name, cache) in [
+            ("supertypes", &self.supertypes_of_cache),
+            ("inheritance", &self.inheritance_of_cache),
+        ] {
+            for (key, defs) in cache.verif_entries() {
+                let mut names: Vec<String> = defs.iter().map(|def| def.def_name().clone()).collect();
+                names.sort();
+                snapshot.push((name, key.value.clone(), names));
+            }
+        }
+        snapshot.sort();
+        snapshot
     }
 }
